@@ -28,20 +28,27 @@ type Sess struct {
 	Down           []int `json:"down,omitempty"`
 	ClientReadWait bool  `json:"clientReadWait,omitempty"` // a client-side Read is blocked when the action is issued
 	ServerReadWait bool  `json:"serverReadWait,omitempty"`
-	HalfMessage    int   `json:"halfMessage,omitempty"` // the client wrote this many bytes that the server application never reads
+	HalfMessage    int   `json:"halfMessage,omitempty"`  // the client wrote this many bytes that the server application never reads
+	NoClientRead   bool  `json:"noClientRead,omitempty"` // the client application never calls Read on this session (it only writes, then closes)
+	// Backlog > 0: before the action one end sends that many one-byte writes
+	// which the other end never reads (more than a receive queue of 4096
+	// segments holds, so the receiving session's input loop waits for space)
+	Backlog   int  `json:"backlog,omitempty"`
+	BacklogUp bool `json:"backlogUp,omitempty"` // the client is the sender
 }
 
 type StopCase struct {
-	UDP      bool            `json:"udp,omitempty"`
-	NoWait   bool            `json:"noWait,omitempty"`
-	Sessions []Sess          `json:"sessions"`
-	IdleMs   int             `json:"idleMs,omitempty"`  // idle period before the action
-	Fault    int             `json:"fault,omitempty"`   // 0 none, 1 TCP reset / UDP black-hole, 2 frozen path (nothing delivered, nothing closed)
-	Action   int             `json:"action"`            // 0 client closes session 0, 1 server closes session 0, 2 client.Stop, 3 server.Stop, 4 both Stops at once
-	Repeat   int             `json:"repeat"`            // how often Close / Stop is repeated (concurrently)
-	Pending  bool            `json:"pending,omitempty"` // writers keep writing into the (possibly stalled) path when the action is issued
-	Pattern  e2e.PatternSpec `json:"pattern"`
-	Salt     uint64          `json:"salt"`
+	UDP       bool            `json:"udp,omitempty"`
+	NoWait    bool            `json:"noWait,omitempty"`
+	RawClient bool            `json:"rawClient,omitempty"` // the client application sits on the session layer (see e2e.Config.RawClient)
+	Sessions  []Sess          `json:"sessions"`
+	IdleMs    int             `json:"idleMs,omitempty"`  // idle period before the action
+	Fault     int             `json:"fault,omitempty"`   // 0 none, 1 TCP reset / UDP black-hole, 2 frozen path (nothing delivered, nothing closed)
+	Action    int             `json:"action"`            // 0 client closes session 0, 1 server closes session 0, 2 client.Stop, 3 server.Stop, 4 both Stops at once
+	Repeat    int             `json:"repeat"`            // how often Close / Stop is repeated (concurrently)
+	Pending   bool            `json:"pending,omitempty"` // writers keep writing into the (possibly stalled) path when the action is issued
+	Pattern   e2e.PatternSpec `json:"pattern"`
+	Salt      uint64          `json:"salt"`
 }
 
 func genStop(t *rapid.T) StopCase {
@@ -81,6 +88,36 @@ func genStop(t *rapid.T) StopCase {
 	c.Pending = rapid.IntRange(0, 2).Draw(t, "pending") == 0
 	c.Pattern = e2e.GenPattern(t, "tp", 1)
 	c.Salt = rapid.Uint64().Draw(t, "salt")
+	// a receive queue filled to the brim and never drained
+	if rapid.IntRange(0, 24).Draw(t, "backlog") == 0 {
+		c.UDP = false
+		s0 := &c.Sessions[0]
+		s0.Backlog = rapid.IntRange(4200, 4800).Draw(t, "backlogWrites")
+		s0.BacklogUp = rapid.Bool().Draw(t, "backlogUp")
+		s0.ClientReadWait, s0.ServerReadWait = false, false
+		c.Fault, c.Pending = 0, false
+	}
+	// fire-and-forget clients: write, never read, close - while the server
+	// application is blocked in Read
+	if rapid.IntRange(0, 5).Draw(t, "writeOnly") == 0 {
+		// through apis/client the first Write also reads the SOCKS5 response; an
+		// application on the session layer really never reads
+		c.NoWait, c.RawClient = true, rapid.IntRange(0, 3).Draw(t, "writeOnlyRaw") != 0
+		for i := range c.Sessions {
+			if i == 0 || rapid.Bool().Draw(t, "writeOnlyToo") {
+				c.Sessions[i].NoClientRead, c.Sessions[i].ClientReadWait, c.Sessions[i].ServerReadWait, c.Sessions[i].HalfMessage = true, false, true, 0
+				if len(c.Sessions[i].Up) == 0 {
+					c.Sessions[i].Up = []int{100}
+				}
+			}
+		}
+		if rapid.IntRange(0, 2).Draw(t, "writeOnlyClose") != 0 {
+			c.Action = 0
+		}
+		if rapid.IntRange(0, 2).Draw(t, "writeOnlyNoFault") != 0 {
+			c.Fault = 0
+		}
+	}
 	return c
 }
 
@@ -121,7 +158,7 @@ func timed(f func()) time.Duration {
 
 func propStop(c StopCase) (o pbt.Outcome) {
 	before, _ := mieruGoroutines()
-	cfg := e2e.Config{UDP: c.UDP, NoWait: c.NoWait, ClientPattern: c.Pattern, ServerPattern: c.Pattern}
+	cfg := e2e.Config{UDP: c.UDP, NoWait: c.NoWait, RawClient: c.RawClient, ClientPattern: c.Pattern, ServerPattern: c.Pattern}
 	sn := simnet.NewStreamNet(simnet.StreamOpts{})
 	pn := simnet.NewPacketNet()
 	env, err := e2e.Start(cfg, sn, pn)
@@ -207,7 +244,7 @@ func propStop(c StopCase) (o pbt.Outcome) {
 				}
 				down += int64(w)
 			}
-			for got := int64(0); got < down; {
+			for got := int64(0); got < down && !c.Sessions[i].NoClientRead; {
 				n, err := cc.Read(buf)
 				got += int64(n)
 				if err != nil && !e2e.IsTimeout(err) {
@@ -283,6 +320,31 @@ func propStop(c StopCase) (o pbt.Outcome) {
 			})
 		}
 	}
+	for i, s := range c.Sessions {
+		if s.Backlog == 0 {
+			continue
+		}
+		from := pairs[i].s
+		if s.BacklogUp {
+			from = pairs[i].c
+		}
+		wrote := make(chan struct{})
+		go func(n int) {
+			defer close(wrote)
+			one := []byte{7}
+			for k := 0; k < n; k++ {
+				if _, err := from.Write(one); err != nil {
+					return
+				}
+			}
+		}(s.Backlog)
+		select {
+		case <-wrote:
+		case <-time.After(8 * time.Second):
+		}
+		time.Sleep(100 * time.Millisecond)
+		o.Label("receiveQueueBacklog")
+	}
 	time.Sleep(2 * time.Millisecond)
 	if c.IdleMs > 0 {
 		time.Sleep(time.Duration(c.IdleMs) * time.Millisecond)
@@ -347,11 +409,11 @@ func propStop(c StopCase) (o pbt.Outcome) {
 	case 1:
 		run(actionName, func() { pairs[0].s.Close() })
 	case 2:
-		run(actionName, func() { env.Client.Stop() })
+		run(actionName, func() { env.StopClient() })
 	case 3:
 		run(actionName, func() { env.Server.Stop() })
 	case 4:
-		run(actionName, func() { env.Client.Stop() })
+		run(actionName, func() { env.StopClient() })
 		run(actionName, func() { env.Server.Stop() })
 	}
 	actionDone := make(chan struct{})
@@ -362,6 +424,7 @@ func propStop(c StopCase) (o pbt.Outcome) {
 	o.Label("fault=%d", c.Fault)
 	o.Label("waiters=%d", len(waiters))
 	o.Label("pending=%v", c.Pending)
+	o.Label("writeOnlyClient=%v", c.Sessions[0].NoClientRead)
 	o.NonTrivial = len(waiters) > 0 || c.Pending
 	// Known open finding F-C15-6: Stop closes the sessions one after the other
 	// and each waits its full one-second grace whenever its close request
@@ -370,8 +433,14 @@ func propStop(c StopCase) (o pbt.Outcome) {
 	// (stalled path with data pending). Any "too slow"/"still blocked" verdict
 	// of a Stop under these conditions is attributed to it.
 	graceApplies := !c.UDP || (c.Fault != 0 && c.Pending) // sessions cannot send their close request at once
+	// The finding explains about one second per session, not more: with n
+	// sessions a Stop may then need n seconds (plus slack), so it accounts for
+	// a verdict at the 10 s bound only when there are enough sessions, and
+	// only if everything is over within n*2 s + 5 s.
+	explainable := graceApplies && time.Duration(len(c.Sessions))*time.Second+2*time.Second >= bound
+	budget := time.Duration(len(c.Sessions))*2*time.Second + 5*time.Second
 	tcpStop := func(sig string) string {
-		if graceApplies && c.Action >= 2 {
+		if explainable && c.Action >= 2 {
 			return "stop-one-second-per-session"
 		}
 		return sig
@@ -383,7 +452,15 @@ func propStop(c StopCase) (o pbt.Outcome) {
 		if c.Pending && c.Fault == 2 && !c.UDP {
 			sig += "/tcp-write-stalled"
 		}
-		sig = tcpStop(sig)
+		if tcpStop(sig) != sig {
+			// explained by the known finding only if it ends within the budget
+			select {
+			case <-actionDone:
+				sig = tcpStop(sig)
+			case <-time.After(time.Until(issued.Add(budget))):
+				sig += "/beyond-one-second-per-session"
+			}
+		}
 		o.Failf(sig, "%s (%s, udp=%v, %d open sessions) did not return within %v", actionName, faultName, c.UDP, len(c.Sessions), bound)
 		// let the action finish so that the process stays clean
 		pn.SetBlackhole(false)
@@ -410,21 +487,37 @@ func propStop(c StopCase) (o pbt.Outcome) {
 		select {
 		case <-w.done:
 		case <-time.After(time.Until(issued.Add(bound))):
-			o.Failf(tcpStop("blocked/"+strings.Fields(w.name)[0]), "%s was blocked when %s was issued (%s) and has not returned %v later", w.name, actionName, faultName, bound)
+			sig := "blocked/" + strings.Fields(w.name)[0]
+			if tcpStop(sig) != sig {
+				select {
+				case <-w.done:
+					sig = tcpStop(sig)
+				case <-time.After(time.Until(issued.Add(budget))):
+					sig += "/beyond-one-second-per-session"
+				}
+			}
+			o.Failf(sig, "%s was blocked when %s was issued (%s) and has not returned %v later", w.name, actionName, faultName, bound)
 			return
 		}
 	}
 	// full shutdown, then nothing of the two endpoints may keep running
 	t0 := time.Now()
-	ok := env.StopBounded(bound)
+	stopDone := make(chan struct{})
+	go func() { env.Stop(); close(stopDone) }()
 	stopped = true
-	if !ok {
+	select {
+	case <-stopDone:
+	case <-time.After(bound):
 		sigFinal := "slow/final-stop"
-		if graceApplies {
-			sigFinal = "stop-one-second-per-session"
+		if explainable {
+			select {
+			case <-stopDone:
+				sigFinal = "stop-one-second-per-session"
+			case <-time.After(budget - bound):
+				sigFinal += "/beyond-one-second-per-session"
+			}
 		}
-		o.Failf(sigFinal, "stopping client and server after %s (%s) did not complete within %v", actionName, faultName, bound)
-		time.Sleep(0)
+		o.Failf(sigFinal, "stopping client and server after %s (%s, %d sessions) did not complete within %v", actionName, faultName, len(c.Sessions), bound)
 		return
 	}
 	_ = t0
